@@ -171,6 +171,10 @@ def id_str(pos):
 # ------------------------------------------------------------------ parameters
 def fresh_name(state, gap_id, base='v', avoid=()):
     used = set(state.get_vars(gap_id)) | set(avoid)
+    # also the names introduced by later lines (they come into the scope of a variable introduced at the gap)
+    for _, it in walk_items(state.prf):
+        if it.rule == 'variable' and it.args:
+            used.add(it.args[0])
     k = 0
     while True:
         cand = '%s%d' % (base, k) if k else base
